@@ -73,9 +73,10 @@ IsStringLike(k) == k.a \in {"string", "anyURI", "untypedAtomic"}
 
 LexInt(x) == CASE x = "0" -> 0 [] x = "1" -> 1 [] x = "2" -> 2 [] x = "3" -> 3 [] x = "4" -> 4
                [] x = "5" -> 5 [] x = "6" -> 6 [] x = "7" -> 7 [] x = "8" -> 8 [] x = "9" -> 9
-IntLex(n) == CASE n = 0 -> "0" [] n = 1 -> "1" [] n = 2 -> "2" [] n = 3 -> "3" [] n = 4 -> "4"
-               [] n = 5 -> "5" [] n = 6 -> "6" [] n = 7 -> "7" [] n = 8 -> "8" [] n = 9 -> "9"
-               [] n = 10 -> "10" [] n = 11 -> "11" [] n = 12 -> "12"
+Digit(d) == CASE d = 0 -> "0" [] d = 1 -> "1" [] d = 2 -> "2" [] d = 3 -> "3" [] d = 4 -> "4"
+              [] d = 5 -> "5" [] d = 6 -> "6" [] d = 7 -> "7" [] d = 8 -> "8" [] d = 9 -> "9"
+RECURSIVE IntLex(_)
+IntLex(n) == IF n < 10 THEN Digit(n) ELSE IntLex(n \div 10) \o Digit(n % 10)
 IntA(n) == A("integer", IntLex(n))
 Bool(b) == IF b THEN BT ELSE BF
 
@@ -232,15 +233,17 @@ AFilter(a, p) == Val(<<Ar(SelectSeq(a.r, LAMBDA x : ApplyPred(p, x)))>>)
           "rlast" fold-right($a, (), function($x,$acc){$x})                = first member        *)
 Folds == IF Lite THEN {"cat", "rlast"} ELSE {"cat", "cnt", "last", "rcat", "rlast"}
 RECURSIVE FoldL(_, _, _), FoldR(_, _, _)
+(* the accumulator of "cnt" is kept as a number and rendered as an xs:integer at the end *)
 FoldL(f, acc, xs) == IF Len(xs) = 0 THEN acc
                      ELSE FoldL(f, CASE f = "cat" -> acc \o Head(xs)
-                                     [] f = "cnt" -> <<IntA(LexInt(acc[1].x) + Len(Head(xs)))>>
+                                     [] f = "cnt" -> acc + Len(Head(xs))
                                      [] f = "last" -> Head(xs), Tail(xs))
 FoldR(f, xs, acc) == IF Len(xs) = 0 THEN acc
                      ELSE LET r == FoldR(f, Tail(xs), acc) IN
                           CASE f = "rcat" -> r \o Head(xs) [] f = "rlast" -> Head(xs)
 AFold(a, f) == IF f \in {"rcat", "rlast"} THEN Val(FoldR(f, a.r, <<>>))
-               ELSE Val(FoldL(f, IF f = "cnt" THEN <<I0>> ELSE <<>>, a.r))
+               ELSE IF f = "cnt" THEN Val(<<IntA(FoldL(f, 0, a.r))>>)
+               ELSE Val(FoldL(f, <<>>, a.r))
 
 (* constructors: [v1, v2] makes one member per operand; array{ seq } one member per item *)
 ArrSquare(mems) == Val(<<Ar(mems)>>)
@@ -309,7 +312,8 @@ MapSeedsVals ==
         M3(I1, V1, SA, V2, EN, VE), M3(I2, VA, I1, VM, SB, V12)}
 ArrSeeds ==
   {EmptyArr} \cup {Ar(<<v>>) : v \in Vals6} \cup {Ar(<<v, w>>) : v, w \in {V1, VE, V12, VA}}
-  \cup {Ar(<<V1, V2, V12>>), Ar(<<VE, VM, VA>>), Ar(<<V2, V2, V2>>), Ar(<<VA, VE, V1>>)}
+  \cup {Ar(<<V1, V2, V12>>), Ar(<<VE, VM, VA>>), Ar(<<V2, V2, V2>>), Ar(<<VA, VE, V1>>),
+        Ar(<<<<NestedArr, I2, NestedArr>>, V1>>)}          \* [([1,()], 2, [1,()]), 1]: arrays inside a sequence member
 ArrSeedsSmall ==
   {EmptyArr, Ar(<<V1>>), Ar(<<VE>>), Ar(<<VA>>), Ar(<<V1, V12>>), Ar(<<VE, VM>>), Ar(<<V1, V2, V12>>), Ar(<<VA, VE, V1>>)}
 DeqUniverse ==
@@ -317,7 +321,7 @@ DeqUniverse ==
    <<M0>>, <<EmptyArr>>, VM, VA, <<M1(D1, V2)>>, <<M1(I1, V1)>>, <<M1(SA, V1)>>, <<M1(UA, V1)>>, <<M1(BT, V1)>>,
    <<M1(I1, <<EN>>)>>, <<M2(I1, V1, SA, V2)>>, <<M2(SA, V2, I1, V1)>>, <<M2(I1, V1, SA, V1)>>,
    <<Ar(<<V1>>)>>, <<Ar(<<<<D1>>>>)>>, <<Ar(<<<<BT>>>>)>>, <<Ar(<<V12>>)>>, <<Ar(<<V1, V2>>)>>, <<Ar(<<V2, V1>>)>>,
-   <<Ar(<<VE>>)>>, <<Ar(<<<<EN>>>>)>>, <<Ar(<<VA>>)>>, <<Ar(<<<<Ar(<<V1, VE>>)>>>>)>>, <<Ar(<<VM>>)>>,
+   <<Ar(<<VE>>)>>, <<Ar(<<<<EN>>>>)>>, <<Ar(<<<<FN>>>>)>>, <<Ar(<<VA>>)>>, <<Ar(<<<<Ar(<<V1, VE>>)>>>>)>>, <<Ar(<<VM>>)>>,
    <<M0, I1>>, <<M0, I2>>, <<EmptyArr, I1>>, <<EmptyArr, I2>>, <<I1, M0>>, <<NestedMap, NestedMap>>}
 
 Seeds ==
@@ -623,7 +627,7 @@ DeepEqLaws ==
 DeqUniverseLaws ==
   /\ \A u \in DeqUniverse : DeepEq(u, u)
   /\ \A u, w \in DeqUniverse : DeepEq(u, w) <=> DeepEq(w, u)
-  /\ \A u, w, z \in DeqUniverse : (DeepEq(u, w) /\ DeepEq(w, z)) => DeepEq(u, z)
+  /\ \A u, w \in DeqUniverse : DeepEq(u, w) => \A z \in DeqUniverse : DeepEq(w, z) => DeepEq(u, z)
 (* op:same-key is an equivalence on the key alphabet; the classes named by the property *)
 SameKeyLaws ==
   /\ \A k \in KeysExt : SameKey(k, k)
@@ -636,11 +640,11 @@ SameKeyLaws ==
   /\ ~SameKey(EN, EI) /\ ~SameKey(DT, SA) /\ ~SameKey(I1, SA)
   /\ Cardinality({{k2 \in Keys13 : SameKey(k, k2)} : k \in Keys13}) = 7  \* 13 keys, 7 classes
 ASSUME SameKeyLaws
-ASSUME DeqUniverseLaws
+ASSUME Profile = "deq" => DeqUniverseLaws     \* 44^3 triples: once, in the run that uses the universe
 
 (* LawsOfMap / LawsOfArr quantify over the whole parameter grid, i.e. over every out-edge of the
    state; they are therefore evaluated in the states that are expanded (the leaves of the bounded
    exploration only are results, already covered by the laws of their predecessor) *)
 Expanded == Len(store) - NSeed < Depth
-Laws == WellFormed /\ DeepEqLaws /\ (Expanded => MapLaws /\ PairLaws /\ ArrLaws)
+Laws == WellFormed /\ DeepEqLaws /\ ((Expanded /\ Profile # "deq") => MapLaws /\ PairLaws /\ ArrLaws)
 =============================================================================
